@@ -105,28 +105,9 @@ unsigned int get_rex_prefix(struct instr *all_instr, struct operand *m,
 uint8_t get_reg(struct instr *instrc, struct operand *m, int r) {
   // check for base register (sib with not base)
   if (m->reg == reg_none && m->index != reg_none) {
-    // this is the strict implementation
-    if (instrc->assembly_opt & NASM_SIB_NO_BASE) {
-      switch (instrc->sib_disp) {
-      case SIB:
-        // disable Scaled Index Addressing
-        m->reg = m->index;
-        m->index = reg_none;
-        break;
-      case SIB2:
-        m->reg = m->index;
-        instrc->sib_disp = SIB;
-        break;
-      default:
-
-        m->reg = NO_BASE;
-        instrc->no_base = true;
-        break;
-      }
-    } else {
-      m->reg = NO_BASE;
-      instrc->no_base = true;
-    }
+    // (the nasm-style rewriting of scale 1 and 2 has been done in encode_mem)
+    m->reg = NO_BASE;
+    instrc->no_base = true;
     // without a base the displacement is always 32 bits wide: undo the 8-bit
     // truncation of a small negative displacement
     if (m->reg == NO_BASE && instrc->mod_disp == MOD8 &&
